@@ -360,6 +360,8 @@ class Interp:
         elif isinstance(target_expr, ast.Attribute):
             obj = self.eval(target_expr.value, env)
             if isinstance(obj, ObjV):
+                if not any(f.name == "__init__" for f in self.call_stack):
+                    self.event("self_write", st, attr=target_expr.attr, cls=obj.cls.qualname, how="container mutation")
                 obj.fields[target_expr.attr] = new
             else:
                 self.event("lost_mutation", st)
